@@ -145,13 +145,22 @@ def rule_S1b(ctx):
     if pairs is None:
         raise AnalysisError("WorkflowConductor.serialize builds no dict")
     forced = False
-    # statements before the dict (e.g. state = self.workflow_state.serialize())
+    # evaluation order: the statements of serialize() one after the other; inside the statement
+    # that holds the dict display, its values one after the other
+    steps = []
     for s in ser.node.body:
         if d in list(ast.walk(s)):
-            break
-        if _forces_init(prog, wc, s, "workflow_state"):
-            forced = True
-    for k, v in pairs:
+            steps.extend(pairs)
+        elif isinstance(s, ast.Return) and isinstance(s.value, ast.Name):
+            continue
+        else:
+            key_ = None
+            if isinstance(s, ast.Assign) and len(s.targets) == 1 and isinstance(
+                    s.targets[0], ast.Subscript) and isinstance(s.targets[0].slice, ast.Constant):
+                key_ = ast.Constant(value=s.targets[0].slice.value)
+            steps.append((key_ if key_ is not None else ast.Constant(
+                value="<" + norm_src(s)[:40] + ">"), s))
+    for k, v in steps:
         reads = _reads_attr(prog, wc, v, written)
         key = unparse(k) if k is not None else "**"
         inst = ("serialize", key)
